@@ -196,7 +196,7 @@ def check_copy_in(ctx):
                        'storing a deep copy under a name')
         if not any(e.kind == 'substore' and e.path == SOURCE for e in effs):
             continue
-        t = Table(prog, m, handler_paths=False, inline=inline_helpers(
+        t = Table(prog, m, handler_paths=True, inline=inline_helpers(
             prog, modules={POLICY}, classes=False))
         seen = set()
         for p in t.paths:
